@@ -2,6 +2,7 @@
 from mirlib import *
 import page_rules
 import cache_rules
+import crc_rules
 
 TECHNIQUE = "MIR dominance / must-pass-through rules of the page writer (seal-before-emit, flush-before-seek, reload-after-advance), expression-tree match of the logical<->physical formulas and align, explicit who-may-assign table of the page cursors, short-read loop shape, page constants agreement, reader cache typestate"
 EXPLANATION = (
@@ -13,7 +14,7 @@ EXPLANATION = (
     "the partial page, seeks back and forwards the device flush without changing offset; physical_position = "
     "stream_position + offset; reader seek_physical = pos - (pos/page_size)*4 guarded by the file size; both align "
     "formulas; the page cursors are assigned only by the functions whose arithmetic these rules verify; read_current_page "
-    "loops over short reads and zero-fills; the constants 1024/1020/4 agree. Also the page reader's cache typestate (who-may-write, invalidate-on-clobber, validate-before-publish). Not decided: equality of device payload and "
+    "loops over short reads and zero-fills; the constants 1024/1020/4 agree. Also the page reader's cache typestate (who-may-write, invalidate-on-clobber, validate-before-publish), and the shape of the built-in CRC-32C (table, step, and that every byte of the payload slice is folded). Not decided: equality of device payload and "
     "logical stream over arbitrary operation histories (state-space exploration is a different technique).")
 
 
@@ -25,6 +26,7 @@ def run(ctx):
     ctx.rule("R5", "page constants agree (1024 / 1020 / 4); the page cursors are assigned only inside the verified functions")
     ctx.rule("R6", "read_current_page loops over short reads until full or EOF and zero-fills the rest of the whole page buffer")
     ctx.rule("R7", "the page reader's cache typestate: who-may-write, invalidate-on-clobber, validate-before-publish (shared with C07-R1..R3)")
+    ctx.rule("R8", "the built-in checksum is the table-driven CRC-32C over every byte of the slice it is given (shared with C07-R5)")
     for cfg in ["lib", "lib_crc32c"]:
         prog, info = load_program(cfg, "e57")
         ctx.configs[cfg] = info
@@ -37,6 +39,8 @@ def run(ctx):
         page_rules.constants_agree(ctx, prog, "R5")
         page_rules.cursor_writers(ctx, prog, "R5")
         page_rules.read_current_page_shape(ctx, prog, "R6")
+        if cfg == "lib":
+            crc_rules.crc32c_shape(ctx, prog, "R8")
         cache_rules.serve_only_verified(ctx, prog, cache_rules.PR, rule="R4")
         cache_rules.who_may_write(ctx, prog, cache_rules.PR, rule="R7")
         cache_rules.invalidate_on_clobber(ctx, prog, cache_rules.PR, rule="R7")
